@@ -179,10 +179,12 @@ HIDE = [("Opacity", 0, 1.0), ("Display", docgen.NONE, docgen.AUTO), ("Visibility
 def fam_region_bg():
   """regions whose own background is hidden by a specified value or by an initial value and revealed by an animation
   step outside the content interval (the SignificantTimes content-interval short cut must not skip them)"""
-  prod = Product([range(len(HIDE)), ["spec", "init"], [(F(1), F(2)), (None, F(2)), (F(7), None)], [None, (F(5), F(6))], [1, 2], [None, F(1, 2)]])
+  # src: where the hiding value sits (specified on the region / initial value of the document); "init+spec": the document's
+  # initial value hides and the region itself specifies the showing value (the specified value wins: the region always paints)
+  prod = Product([range(len(HIDE)), ["spec", "init", "init+spec"], [(F(1), F(2)), (None, F(2)), (F(7), None), None], [None, (F(5), F(6))], [1, 2], [None, F(1, 2)]])
 
   def dec(i):
-    hi, src, (ab, ae), content, nreg, rbegin = prod.decode(i)
+    hi, src, step, content, nreg, rbegin = prod.decode(i)
     prop, hidden, shown = HIDE[hi]
     spec = docgen.chain_doc({"p": content} if content else {}, True)
     r = spec["regions"][0]
@@ -191,7 +193,10 @@ def fam_region_bg():
       r["st"][prop] = hidden
     else:
       spec["init"] = [[prop, hidden]]
-    r["an"] = [[prop, ab, ae, shown]]
+      if src == "init+spec":
+        r["st"][prop] = shown
+    if step is not None:
+      r["an"] = [[prop, step[0], step[1], shown]]
     if rbegin is not None:
       r["b"] = rbegin
     if nreg == 2:
